@@ -456,7 +456,7 @@ def fault_table(prog: Program, rep: Report) -> None:
             okv = True
     rep.check(rule, cf.qual, "fault class: unknown configuration version", okv, what_bad="the version dispatch has no final else-branch that stops", what_ok="else: critical + raise", loc=cf.loc())
     # (i) subgrid bounds
-    gi = prog.role_func("grid", "__init__")
+    gi = prog.lview(prog.role_func("grid", "__init__"))
     def chain_atom(n):
         """1 <= limits[0] < limits[1] <= imax0 - 1 -> "A"; the j-chain -> "B" (split chains are and-ed leaves)."""
         if isinstance(n, ast.Compare):
